@@ -65,7 +65,14 @@ RULE = ("case kinds: dirty = 0-4 earlier runs (other tables, chunk sizes, prefix
         "C09_append_depends_only_on_result_files: the stale files around never matter). "
         "crash = one run killed before operation k for every k, directory compared with the model's exec_crash k; verify = the CLI's "
         "PIN verify step with / without a pre-existing <pin>.tsv (PINs of 1-6 PSMs, PINs without PSMs, and 2-3 PINs in one call with "
-        "leftovers next to some, names with dots / blanks, paths relative to the working directory); strace = system-call trace of a "
+        "leftovers next to some, names with dots / blanks, paths relative to the working directory; streams verify-longer(-multi): the "
+        "leftover is LONGER than the conversion of the present PIN — the conversion of a larger earlier export of the same PIN, "
+        "of which the present one keeps the first n rows (tail at a line boundary) or a subset (tail anywhere), with / without final "
+        "newline, the earlier export unconverted, the right conversion + rows / one byte / blank lines, garbage with and without "
+        "line breaks, newlines only, > 70 kB, the conversion of a wider table — and its neighbours: as long as the conversion, the "
+        "conversion itself, one byte shorter; PINs whose conversion exceeds 8 KiB; run-time tags leftover>conv / =conv / <conv, "
+        "tail-line-aligned / tail-mid-line); cli-longer = the whole command line next to such a leftover, written directly or "
+        "left by an earlier command line on the larger export (PINs in dest_dir) killed before the move; strace = system-call trace of a "
         "real subprocess run against the Python-level tap, hard kill with os._exit. "
         "distinct = distinct case; non-trivial (decided when the case is run, tags overlap / no-overlap) = the directory found by the "
         "observed run holds a file under one of the names the run writes, removes or could glob (verify: a leftover <pin>.tsv)")
@@ -711,6 +718,40 @@ def gen(ctx):
         spec["ext"] = ".parquet" if spec["fmt"] == "parquet" else (spec["ext"] if spec["ext"] != ".parquet" else ".pin")
         cases.append({"fn": "strace", "observed": spec, "exit_at": rng.randint(1, 12) if k % 2 else None,
                       "tags": ["strace", "fmt=" + spec["fmt"]] + _option_tags(spec)})
+    # ---- the verify step next to a leftover <pin>.tsv that is LONGER than (as long as / one byte shorter than) the conversion
+    #      of the present PIN: a temporary file that is opened without being truncated keeps the tail of the leftover.  The
+    #      realistic history first: an earlier run on a LARGER version of the same PIN was interrupted between conversion and
+    #      move, then the user exports fewer PSMs to the same path (the first n rows: the tail starts at a line boundary; a
+    #      subset of the rows: it starts anywhere).  Streams added after all others (round 5)
+    rng = ctx.sub("verify-longer")
+    for k in range((6 if ctx.thorough else 2) * len(LONGER_KINDS)):
+        kind = LONGER_KINDS[k % len(LONGER_KINDS)]
+        big = k % 5 == 4          # a PIN whose conversion is longer than one I/O buffer
+        new, old, how = _pin_history(rng, rng.randint(300, 600) if big else rng.randint(1, 6), rng.randint(0, 3), rng.random() < 0.3)
+        left = _longer_leftover(rng, kind, new, old)
+        cases.append({"fn": "verify", "pin": new, "leftover": left,
+                      "tags": ["verify", "verify-longer", "ragged", "left:" + kind, "history:" + how] + (["big-pin"] if big else [])})
+    rng = ctx.sub("verify-longer-multi")
+    for k in range(24 if ctx.thorough else 6):
+        npin = rng.choice([2, 2, 3])
+        names = rng.sample(["x.pin", "y.pin", "sample.1.pin", "b c.pin", "x.pin.pin", "z.tab"], npin)
+        pins = []
+        for j, nm in enumerate(names):
+            if j == k % npin or rng.random() < 0.5:
+                new, old, how = _pin_history(rng, rng.randint(1, 5), rng.randint(0, 2), rng.random() < 0.3)
+                left = _longer_leftover(rng, rng.choice(LONGER_KINDS), new, old)
+            else:
+                # a PIN that needs no conversion: the (long) leftover next to it is none of the run's business
+                new, _ = _gen_pin_text(rng, rng.randint(1, 5), rng.randint(0, 2), False, False)
+                left = rng.choice([None, _garbage(rng, len(new) + rng.choice([1, 100, 9000]), 30)])
+            pins.append({"name": nm, "pin": new, "leftover": left})
+        cases.append({"fn": "verify", "pins": pins, "rel": rng.random() < 0.5,
+                      "tags": ["verify", "verify-longer", "multi-pin", "npin=%d" % npin]})
+    # ---- the whole command line with such a leftover next to a ragged PIN: written directly, or left by an earlier command
+    #      line on the larger version of the PINs (in the same input directory) that was killed before the move
+    rng = ctx.sub("cli-longer")
+    for k in range(24 if ctx.thorough else 5):
+        cases.append(_gen_cli_longer(rng, k))
     return cases
 
 
@@ -739,6 +780,158 @@ def _gen_pin_text(rng, nrow, nfeat, ragged, dd):
         lines.append("\t".join(["id%d" % r, rng.choice(["1", "-1"]), str(r + 1)] + [str(rng.randint(0, 9)) for _ in range(nfeat)]
                                + ["K.PEP%dK.A" % r] + ["prot%d" % rng.randint(0, 9) for _ in range(np_)]))
     return "\n".join(lines) + ("\n" if rng.random() < 0.8 else ""), header
+
+
+# ---- leftovers <pin>.tsv that are longer than the conversion (round 5)
+LONGER_KINDS = ["old-conv", "old-conv", "old-conv-nonl", "old-pin", "conv+rows", "conv+byte", "conv+blank-lines", "garbage-lines",
+                "garbage-oneline", "newlines-only", "huge", "equal-len", "equal-content", "shorter-1", "other-header"]
+
+
+def _conv_guess(txt):
+    """what the verify step's conversion of a PIN looks like (header, DefaultDirection line dropped, the surplus fields of a
+    row joined by ':' at the protein column).  Used by the generators to SIZE and to shape leftovers only; the relation that
+    counts — leftover longer / as long as / shorter than the conversion — is measured when the case is run (tags
+    leftover>conv ...), and what the conversion must be is decided by the model and by the run in a clean directory"""
+    lines = [ln.strip() for ln in txt.split("\n")]
+    while lines and lines[-1] == "":
+        lines.pop()
+    cols = lines[0].split("\t")
+    low = [c.lower() for c in cols]
+    ip = low.index("proteins") if "proteins" in low else len(cols) - 1
+    out = [lines[0]]
+    for k, ln in enumerate(lines[1:]):
+        if k == 0 and ln.startswith("DefaultDirection"):
+            continue
+        f = ln.split("\t")
+        extra = max(0, len(f) - len(cols))
+        out.append("\t".join(f[:ip] + [":".join(f[ip:ip + extra + 1])] + f[ip + extra + 1:]))
+    return "\n".join(out) + "\n"
+
+
+def _garbage(rng, nbytes, line_len):
+    """nbytes bytes of text: fields of letters and digits, a line break about every line_len bytes (0: none at all)"""
+    out = []
+    n = 0
+    while n < nbytes:
+        w = "".join(rng.choice("abcXYZ019:.-") for _ in range(rng.randint(1, 9)))
+        sep = "\n" if (line_len and rng.random() < 1.0 / max(1, line_len // 6)) else "\t"
+        out.append(w + sep)
+        n += len(w) + 1
+    return "".join(out)[:nbytes]
+
+
+def _pin_history(rng, n_new, nfeat, dd):
+    """(present PIN, its larger earlier version, how the present one was derived): ragged PINs; the present one keeps the first
+    n_new PSMs of the earlier export (prefix) or row 0 and a sample of the others in their order (subset)"""
+    n_old = n_new + rng.randint(1, max(2, n_new))
+    old, header = _gen_pin_text(rng, n_old, nfeat, True, dd)
+    lines = old.split("\n")
+    fnl = lines[-1] == ""
+    if fnl:
+        lines.pop()
+    nhead = 2 if dd else 1
+    rows = lines[nhead:]
+    how = rng.choice(["prefix", "subset"])
+    if how == "prefix":
+        keep = list(range(n_new))
+    else:
+        keep = [0] + sorted(rng.sample(range(1, n_old), n_new - 1))
+    new = "\n".join(lines[:nhead] + [rows[i] for i in keep]) + ("\n" if (fnl or rng.random() < 0.5) else "")
+    return new, old, how
+
+
+def _longer_leftover(rng, kind, new, old):
+    conv = _conv_guess(new)
+    L = len(conv)
+    delta = rng.choice([1, 2, 7, 64, 4096, 8192, 8193])
+    if kind == "old-conv":            # the earlier, larger export, converted: what an interrupted run leaves
+        return _conv_guess(old)
+    if kind == "old-conv-nonl":
+        return _conv_guess(old).rstrip("\n")
+    if kind == "old-pin":             # the earlier export as it was (ragged)
+        return old if len(old) > L else old + old
+    if kind == "conv+rows":           # the right conversion followed by more rows: the tail is whole lines
+        return conv + "".join("old%d\t1\t7\n" % i for i in range(rng.randint(1, 4)))
+    if kind == "conv+byte":
+        return conv + rng.choice(["\n", "x", "\t", " ", "\r"])
+    if kind == "conv+blank-lines":
+        return conv + "\n" * rng.randint(1, 5)
+    if kind == "garbage-lines":
+        return _garbage(rng, L + delta, 40)
+    if kind == "garbage-oneline":
+        return _garbage(rng, L + delta, 0)
+    if kind == "newlines-only":
+        return "\n" * (L + delta)
+    if kind == "huge":                # longer than any buffer between the code and the file
+        return _garbage(rng, L + 70000 + delta, 60)
+    if kind == "equal-len":           # the neighbours: as long as the conversion, the conversion itself, one byte shorter
+        return _garbage(rng, L, 40)
+    if kind == "equal-content":
+        return conv
+    if kind == "shorter-1":
+        return rng.choice([conv[:-1], _garbage(rng, L - 1, 40)])
+    if kind == "other-header":        # the conversion of another, wider table that was exported to this path before
+        o, _ = _gen_pin_text(rng, len(new.split("\n")) + rng.randint(2, 6), 5, True, False)
+        return _conv_guess(o)
+    raise ValueError(kind)
+
+
+def _gen_cli_longer(rng, k):
+    import copy
+    c = _gen_cli(rng, k)
+    obs = c["observed"]
+    hist = k % 3 == 2               # the leftover comes from a killed earlier command line instead of being written directly
+    olds = []
+    for j, p in enumerate(obs["pins"]):
+        lines = p["text"].split("\n")[:-1]
+        rows = lines[1:]
+        if j == 0 or rng.random() < 0.5:
+            if not p["ragged"]:
+                rows = [r + "".join("\tprot%d" % rng.randint(6, 9) for _ in range(rng.randint(1, 2))) if (i == 0 or rng.random() < 0.3) else r
+                        for i, r in enumerate(rows)]
+                p["ragged"] = True
+                p["text"] = "\n".join([lines[0]] + rows) + "\n"
+            # the larger earlier export: the present rows and further PSMs, behind them (prefix) or in between (subset)
+            more = []
+            for i in range(rng.randint(1, max(2, len(rows) // 2))):
+                f = rng.choice(rows).split("\t")
+                f[0] = "old_%d_%s" % (i, f[0])
+                more.append("\t".join(f))
+            how = rng.choice(["prefix", "subset"])
+            old_rows = list(rows)
+            for m in more:
+                old_rows.insert(len(old_rows) if how == "prefix" else rng.randint(1, len(old_rows)), m)
+            old = "\n".join([lines[0]] + old_rows) + "\n"
+            kind = rng.choice(["old-conv", "old-conv", "old-conv-nonl", "conv+rows", "garbage-lines", "conv+byte", "equal-len"])
+            p["leftover"] = None if hist else _cli_left(rng, kind, p["text"], old)
+            olds.append(old)
+        else:
+            olds.append(p["text"])
+    if hist:
+        e = copy.deepcopy(obs)
+        for p, o in zip(e["pins"], olds):
+            p["text"] = o
+            p["leftover"] = None
+        # the PINs of both command lines live in dest_dir (the earlier run's file operations on them are seen by the tap, and
+        # the observed command is given the same paths): operation 0 writes <pin>.tsv of the first ragged PIN, operation 1
+        # would move it
+        e["dest"], e["in_dest"], e["pins_rel"] = "abs", True, False
+        e["end"] = ["kill", 1]
+        obs["in_dest"] = True
+        c["runs"] = c["runs"] + [e]
+    c["tags"] = [t for t in c["tags"] if t != "in_dest"] + (["in_dest"] if obs["in_dest"] else []) \
+        + ["cli-longer", "history" if hist else "written"]
+    if "ragged-pin" not in c["tags"]:
+        c["tags"].append("ragged-pin")
+    return c
+
+
+def _cli_left(rng, kind, text, old):
+    if kind == "old-conv":
+        return _conv_guess(old)
+    if kind == "old-conv-nonl":
+        return _conv_guess(old).rstrip("\n")
+    return _longer_leftover(rng, kind, text, old)
 
 
 # ---- the whole command line
@@ -1597,6 +1790,9 @@ def _main_until_read_pin(argv, cwd=None):
         logging.disable(logging.CRITICAL)
 
 
+VERIFY_RT_TAGS = ("leftover>conv", "leftover=conv", "leftover<conv", "tail-line-aligned", "tail-mid-line", "tail>8KiB", "conv>8KiB")
+
+
 def _verify_pins(c):
     if "pins" in c:
         return c["pins"]
@@ -1631,6 +1827,25 @@ def _run_verify(c):
             a2 = res["clean"][1] / p["name"]
             impl["pins"].append({"pin": a.read_text() if a.exists() else None, "tmp": t.read_text() if t.exists() else None,
                                  "pin_clean": a2.read_text() if a2.exists() else None})
+        # how long the leftover is relative to the conversion (= the PIN after the clean run, when it was converted), and
+        # whether what lies behind that length starts at a line boundary: decided here, reported as tags
+        tags = c.setdefault("tags", [])
+        for t in VERIFY_RT_TAGS:
+            if t in tags:
+                tags.remove(t)
+        for p, ip in zip(pins, impl["pins"]):
+            conv = ip["pin_clean"]
+            if p["leftover"] is None or conv is None or conv == p["pin"]:
+                continue
+            nl, nc = len(p["leftover"].encode()), len(conv.encode())
+            new = ["leftover>conv" if nl > nc else "leftover=conv" if nl == nc else "leftover<conv"]
+            if nl > nc:
+                new.append("tail-line-aligned" if p["leftover"].encode()[nc - 1:nc] == b"\n" else "tail-mid-line")
+                if nl - nc > 8192:
+                    new.append("tail>8KiB")
+                if nc > 8192:
+                    new.append("conv>8KiB")
+            tags.extend(t for t in new if t not in tags)
         # model: pin by pin, in the order of the command line; a conversion that raises stops the run
         lines = []
         for p in pins:
@@ -1799,9 +2014,11 @@ def _run_cli(c):
         own = results | _own_intermediates(pobs) | (set(pin_names) if obs["in_dest"] else set())
         before_tree = _tree(dest)
         before = sorted(os.listdir(dest))
-        overlap = any(fn in own or _glob_hit(fn, pobs) for fn in before) or any(p["leftover"] is not None for p in obs["pins"])
+        tsv_before = [Path(str(p) + ".tsv").read_bytes() if Path(str(p) + ".tsv").is_file() else None for p in paths]
+        overlap = any(fn in own or _glob_hit(fn, pobs) for fn in before) or any(p["leftover"] is not None for p in obs["pins"]) \
+            or any(t is not None for t in tsv_before)
         tags = c.setdefault("tags", [])
-        for t in ("overlap", "no-overlap"):
+        for t in ("overlap", "no-overlap", "pin-leftover>conv", "pin-leftover<=conv"):
             if t in tags:
                 tags.remove(t)
         tags.append("overlap" if overlap else "no-overlap")
@@ -1824,6 +2041,12 @@ def _run_cli(c):
                 "bystanders_changed": _changed_bystanders(before_tree, after_tree, own),
                 "intermediates_left": sorted(fn for fn in after if fn in _own_intermediates(pobs)),
                 "extra": sorted(fn for fn in after if fn not in before and fn not in results)}
+        # a leftover <pin>.tsv next to a PIN that is converted: longer than the conversion (the PIN after the clean run) or not
+        for q, t, pc in zip(obs["pins"], tsv_before, impl["pins_clean"]):
+            if t is not None and pc is not None and pc != q["text"]:
+                tg = "pin-leftover>conv" if len(t) > len(pc.encode()) else "pin-leftover<=conv"
+                if tg not in tags:
+                    tags.append(tg)
         return ("ok", {"end": "not-modelled"}), ("ok", impl)
     finally:
         shutil.rmtree(d, ignore_errors=True)
